@@ -383,6 +383,7 @@ def check_dtype(dtype, value, node):
             raise AbsRaise("OverflowError", node)
 
 
+FALLBACK_NAMES = None       # set by engines/resolve.install(project): module-level constants / class attributes by name
 FALLBACK_RESOLVER = None    # set by engines/resolve.install(project): resolves un-scripted calls to package functions
 
 
@@ -756,6 +757,10 @@ class Evaluator:
             return {"True": True, "False": False, "None": None}[n.id]
         if self.runtime is not None:
             found, v = self.runtime.lookup_name(self.module, n.id)
+            if found:
+                return v
+        elif FALLBACK_NAMES is not None:
+            found, v = FALLBACK_NAMES(self, n.id, n)
             if found:
                 return v
         raise Unsupported(f"unbound name {n.id}", n)
@@ -1438,6 +1443,16 @@ class Evaluator:
 
     def run(self, stmts: List[ast.stmt]):
         """Returns the returned value (or None). Raises AbsRaise on `raise`."""
+        if self.module is None and stmts:
+            # a body evaluated on its own: recover the function it belongs to (module globals, class, self name)
+            p = getattr(stmts[0], "_csa_parent", None)
+            while p is not None and not isinstance(p, (ast.FunctionDef, ast.AsyncFunctionDef)):
+                p = getattr(p, "_csa_parent", None)
+            if p is not None and getattr(p, "_csa_module", None) is not None:
+                self.module = p._csa_module
+                self.cls_ctx = getattr(p, "_csa_cls", None)
+                if self.self_name is None and self.cls_ctx is not None and p.args.args:
+                    self.self_name = p.args.args[0].arg
         try:
             self.block(stmts)
         except _Return as r:
